@@ -23,10 +23,22 @@ Theorems about `PdeVerif.Cache` (Model/Cache.lean):
 * witnesses that each repaired derivation was NOT faithful: `bc_key_collision_dirichlet_neumann_old`
   (F1), `num_key_collision_old` (A), `array_key_collision_old` (B), `grid_key_collision_old` (D),
   `f1_regression_observable`.
-* `interpolator_reads_current_buffer`: for every history of {write, relink by a collection,
-  assign `_data_full`, interpolate, rate of a PDE with the field as constant} the value read is
-  the field's current buffer; `interpolator_stale_after_relink_old` (F2) and
-  `pde_rate_stale_after_relink_old` (C): witnesses without the respective repair.
+* `helpers_read_current_content`: for every history of {write, relink by a collection, assign
+  `_data_full`, interpolate, interpreted rate, numba-compiled rate of a PDE with the field as constant}
+  that is `Covered` (no compiled rate, or the proposed fix E present) the value read is the content of
+  the field's current buffer; `interpolator_reads_current_buffer` = the instance for the code as it
+  is (histories without the compiled rate); `pde_rate_jit_stale_after_write` (finding E: the compiled
+  rate of the code as it is returns the copy numba froze), `helpers_read_current_content_fixE`;
+  `interpolator_stale_after_relink_old` (F2) and `pde_rate_stale_after_relink_old` (C): witnesses
+  without the respective repair.
+* observable projections `gridObs`, `bcObs`, `bcsObs`, `ArgObs`/`argObs`, `kwObs`, `opObs` and what a
+  key determines: `grid_obs_of_key_eq` (exact values of the bounds, by `fracText_inj` from
+  Lemmas/FracText.lean), `arg_obs_of_key_eq`, `kwargs_obs_of_key_eq`, `opreq_obs_of_key_eq`.
+* composition: `cache_sound_of_faithful_on`, `events_sound_of_faithful_on` (machine theorems relative
+  to a set of admissible requests), `make_operator_cache_sound`, `make_operator_events_sound`,
+  `kwargs_method_cache_sound`: every history of modelled requests on the cache keyed by the CURRENT
+  derivation returns what a fresh construction returns, for every `build` that is a function of the
+  observables; `make_operator_cache_unsound_old`.
 -/
 set_option linter.unusedSimpArgs false
 set_option linter.unusedSectionVars false
